@@ -18,6 +18,8 @@ func init() {
 		{Name: "vbint-fill-divides-by-one", Rule: "R19.3", Where: "(vbint).fill", Edits: []Edit{{"wiretypes.go", "\t\tx = x / 128\n", "\t\tx = x / 1\n"}}},
 		{Name: "subscription-id-deref-unguarded", Rule: "R19.2", Where: "(*Subscribe).dump", Edits: []Edit{{"subscribe.go", "\tif p.subscriptionID != nil {\n\t\tfmt.Fprintf(w, \"SubscriptionID: %v\\n\", p.SubscriptionID())\n\t}", "\tfmt.Fprintf(w, \"SubscriptionID: %v\\n\", int(*p.subscriptionID))"}}},
 		{Name: "byte-counter-loop-never-ends", Rule: "R19.3", Where: "stars", Edits: []Edit{{"connect.go", "\tif v == 0 {\n\t\treturn \"\"\n\t}\n\treturn \"*********\"", "\tif v == 0 {\n\t\treturn \"\"\n\t}\n\tn := 0\n\tfor b := byte(0); b <= 255; b++ {\n\t\tn++\n\t}\n\t_ = n\n\treturn \"*********\""}}},
+		{Name: "descending-byte-counter-that-cannot-pass-zero", Rule: "R19.3", Where: "stars", Edits: []Edit{{"connect.go", "\tif v == 0 {\n\t\treturn \"\"\n\t}\n\treturn \"*********\"", "\tif v == 0 {\n\t\treturn \"\"\n\t}\n\tn := 0\n\tfor i := uint8(7); i >= 0; i-- {\n\t\tn++\n\t}\n\t_ = n\n\treturn \"*********\""}}},
+		{Name: "descending-byte-counter-to-one", Silent: true, Edits: []Edit{{"connect.go", "\tif v == 0 {\n\t\treturn \"\"\n\t}\n\treturn \"*********\"", "\tif v == 0 {\n\t\treturn \"\"\n\t}\n\tn := 0\n\tfor i := uint8(7); i >= 1; i-- {\n\t\tn++\n\t}\n\t_ = n\n\treturn \"*********\""}}},
 		{Name: "negative-capacity-in-a-renderer", Rule: "R19.2", Where: "(*Unsubscribe).filterString", Edits: []Edit{{"unsubscribe.go", "\tif len(p.filters) == 0 {\n\t\treturn \"no filters!\" // malformed\n\t}\n\treturn string(p.filters[0])", "\trest := make([]string, 0, len(p.filters)-1)\n\t_ = rest\n\tif len(p.filters) == 0 {\n\t\treturn \"no filters!\" // malformed\n\t}\n\treturn string(p.filters[0])"}}},
 		{Name: "two-unknown-interfaces-compared", Rule: "R19.2", Where: "Dump", Edits: []Edit{{"packet.go", "func Dump(w io.Writer, p Packet) {\n", "func Dump(w io.Writer, p Packet) {\n\tif any(w) == any(p) {\n\t\treturn\n\t}\n"}}},
 		{Name: "writer-compared-with-io-discard", Silent: true, Edits: []Edit{{"packet.go", "func Dump(w io.Writer, p Packet) {\n", "func Dump(w io.Writer, p Packet) {\n\tif w == io.Discard {\n\t\treturn\n\t}\n"}}},
